@@ -1,6 +1,6 @@
 """C04 — NUTS step size: dual averaging in warm-up, frozen afterwards."""
 from fractions import Fraction
-import math
+import json, math
 import common as C
 from props import nutslib as N
 
@@ -287,8 +287,10 @@ def compare(case, out, model):
 def oracle(case, out):
     """Property text: follows dual averaging during the first n_discard transitions, afterwards eps = eps_bar and never
     changes; positive and finite throughout; m persists across run() calls."""
-    if "timeout" in out or "crash" in out:
+    if "crash" in out:
         return "NUTS run did not finish: %s" % out
+    if "timeout" in out:
+        return None              # judged over the whole batch in global_check (slow is not wrong, see there)
     if "panic" in out:
         return "NUTS run panicked: " + out["panic"]
     if case["op"] == "find_eps":
@@ -352,6 +354,23 @@ def finding_class(case, out, d):
     return None
 
 
+def timeout_budget(n_cases):
+    return max(2, n_cases // 50)
+
+
+def global_check(cases, outs):
+    """Watchdog hits. This NUTS has no tree-depth cap: after a divergent phase dual averaging legitimately proposes step
+    sizes around 1e-6, and one transition then needs ~2^21 leapfrog steps (observed in the thorough tier: accept 0.98,
+    warm-up resumed in a later run() after two discarded divergent transitions; the run is slow, not wrong, and nothing in
+    the property bounds run time). A few such cases are recorded as inconclusive; more than 2 % of the batch timing out is
+    reported, because then runs in general do not finish."""
+    idx = [i for i, o in enumerate(outs) if isinstance(o, dict) and "timeout" in o]
+    if len(idx) > timeout_budget(len(cases)):
+        return [(idx[0], "%d of %d NUTS runs did not finish within the watchdog (%s s); first: %s" % (
+            len(idx), len(cases), outs[idx[0]]["timeout"], json.dumps(cases[idx[0]])[:300]))]
+    return []
+
+
 def nontrivial(case, out):
     if case["op"] == "find_eps":
         return True
@@ -376,6 +395,8 @@ def extra(cases, outs, model):
     return {"warmup_transitions": warm, "post_warmup_transitions": post,
             "interval_checked": sum(len(sel(c, o)[1]) for c, o in zip(cases, outs) if c["op"] != "find_eps"),
             "multi_run_cases": sum(1 for c in cases if c["op"] != "find_eps" and len(c["runs"]) >= 2),
+            "watchdog_inconclusive": [C.abbrev(c) for c, o in zip(cases, outs) if isinstance(o, dict) and "timeout" in o][:5],
+            "watchdog_inconclusive_count": sum(1 for o in outs if isinstance(o, dict) and "timeout" in o),
             "whole_runs_checked": sum(len(whole_runs(o)) for c, o in zip(cases, outs) if c["op"] != "find_eps" and "runs" in o),
             "find_eps_cases": sum(1 for c in cases if c["op"] == "find_eps"),
             "find_eps_values": sorted({N.bf(o["eps"]) for c, o in zip(cases, outs) if c["op"] == "find_eps" and "eps" in o})}
